@@ -371,9 +371,27 @@ func ruleErrPropagates(rule string) RuleFn {
 						break
 					}
 				}
+				// (b) the error is looked at before anything is reported as a success: from the call, every path to a
+				// nil-error return crosses a nil-edge of this very error (re-executing the call starts afresh)
+				if !bad {
+					nilE := an.NilErrEdges(fn, k, idx)
+					g := an.NewGates().AddEdges(nilE...).AddEdges(ne...).AddInstr(k)
+					hit, path := an.PathTo(fn, k, func(i ssa.Instruction) bool {
+						r, ok := i.(*ssa.Return)
+						if !ok || i.Block().Comment == "recover" || len(r.Results) == 0 {
+							return false
+						}
+						kc, isC := an.Resolve(r.Results[len(r.Results)-1]).(*ssa.Const)
+						return isC && kc.IsNil() && isErrorType(r.Results[len(r.Results)-1])
+					}, g)
+					if hit != nil && len(nilE) > 0 {
+						bad = true
+						c.Bad(rule, cons, "a nil-error return is reachable after "+an.CalleeName(k)+" without its error having been tested: a failure is silently reported as success", hit, an.BlockPath(c.P, path))
+					}
+				}
 				_ = errVal
 				if !bad {
-					c.OK(rule, cons, "non-nil edge leads only to error returns", k)
+					c.OK(rule, cons, "non-nil edge leads only to error returns; no success return before the error was tested", k)
 				}
 			})
 		}
